@@ -496,6 +496,10 @@ func (x *X) alloc(fr *frame, in *ssa.Alloc) {
 	} else {
 		x.storeAt(objLoc(t, r), t, x.zero(t))
 	}
+	if isBufferType(t) {
+		lenL, _ := bufLoc(r)
+		x.writeLeaf(lenL, "", SInt, "0")
+	}
 	fr.vals[in] = p
 }
 
@@ -1011,7 +1015,17 @@ func (x *X) fireSiteAsserts(fr *frame, in ssa.Instruction) {
 			}()
 		}
 		x.polarity = 1
+		x.arbs = nil
 		goal := x.evalBool(env, sa.Expr)
 		x.oblige("assert", fmt.Sprintf("at %q: %s", sa.At, sa.Expr), pos, goal)
 	}
+}
+
+func isBufferType(t types.Type) bool {
+	n, ok := t.(*types.Named)
+	if !ok || n.Obj().Pkg() == nil {
+		return false
+	}
+	q := n.Obj().Pkg().Path() + "." + n.Obj().Name()
+	return q == "bytes.Buffer" || q == "strings.Builder"
 }
